@@ -731,3 +731,38 @@ Example split_sizes_ex :
   ([(Split.FDAT, [x01; x02; x03; x04; x05; x06; x07; x08; x09; x0a; x0b; x0c; x0d; x0e; x0f; x10; x11; x12])],
    Some [(Split.FDAT, [x13; x14])]).
 Proof. vm_compute. reflexivity. Qed.
+
+(* ================================================================================================= *)
+(* 6. append as the code does it (ArchiveRun.append_raw: open, seek_to_end, add entries, finalize; the  *)
+(*    file is written in place)                                                                          *)
+(* ================================================================================================= *)
+From PNA Require ArchiveRun.
+
+Lemma overwrite_tail bs pos w : (length bs <= pos + length w)%nat ->
+  ArchiveRun.overwrite bs pos w = firstn pos bs ++ w.
+Proof. intros H. unfold ArchiveRun.overwrite. rewrite skipn_all2 by exact H. rewrite app_nil_r. reflexivity. Qed.
+
+(* appending the entries of one written archive to another gives exactly the archive of the concatenated
+   entry lists: nothing of the old end marker survives, no entry is lost, duplicated or reordered *)
+Theorem append_raw_written num es dn new : num < 2 ^ 32 -> dn < 2 ^ 32 -> Forall wf_entry es -> Forall wf_entry new ->
+  ArchiveRun.append_raw (write_raw_archive num es) (write_raw_archive dn new) =
+  Ok (write_raw_archive num (es ++ new), false).
+Proof.
+  intros Hn Hd Hw Hw'. unfold ArchiveRun.append_raw.
+  destruct (seek_written num es Hn Hw) as (r & Hh & Hl & Hs). cbv zeta in Hh, Hl, Hs.
+  rewrite Hh. cbn [bind]. rewrite Hs. cbn [bind]. rewrite read_written by assumption. cbn [bind].
+  f_equal. f_equal.
+  change (map (fun e => fst (add_chunks e)) new) with (map ser_chunks new). fold (ser_entries new).
+  pose proof (write_raw_archive_len num es) as L.
+  assert (P : (28 + N.to_nat (len (write_raw_archive num es) - 12 - 28))%nat = length (write_header num ++ ser_entries es)).
+  { rewrite app_length, write_header_length. unfold len in L |- *. lia. }
+  rewrite P. rewrite overwrite_tail.
+  - rewrite !write_raw_archive_eq. rewrite (app_assoc (write_header num)).
+    rewrite firstn_app_l by (apply Nat.le_refl). rewrite firstn_all.
+    unfold ser_entries. rewrite map_app, concat_app, <- !app_assoc. reflexivity.
+  - rewrite write_raw_archive_eq at 1. rewrite !app_length.
+    assert (length finalize = 12%nat) by (vm_compute; reflexivity). lia.
+Qed.
+
+Example append_raw_ex : ArchiveRun.append_raw ex_arch (write_raw_archive 0 [ex_e2]) = Ok (write_raw_archive 7 [ex_e1; ex_e2; ex_e2], false).
+Proof. vm_compute. reflexivity. Qed.
